@@ -5,11 +5,13 @@ import common, fns, sweeps, labelled
 from common import quiet, canon
 
 PROP = 'C15'
-LEAN_MODULES = ['XyzProofs.Props.C15']
+LEAN_MODULES = ['XyzProofs.Props.C15', 'XyzProofs.Refine.SamplerSt']
 THEOREMS = ['Sampler.c15_appends_n', 'Sampler.c15_row_correct', 'Sampler.c15_draws_allowed', 'Sampler.c15_disk_eq_mem',
             'Sampler.c15_history', 'Sampler.c15_continue', 'Sampler.c15_file_appends', 'Sampler.c15_history_shown',
-            'Sampler.c15_two_objects', 'Sampler.inv_step', 'Sampler.c15_look_synced']
-ANCHORS = ['samplesDefersCleanup']
+            'Sampler.c15_two_objects', 'Sampler.inv_step', 'Sampler.c15_look_synced',
+            'Sampler.smLoadFull_spec', 'Sampler.smSaveFull_spec', 'Sampler.smAddDf_refines', 'Sampler.smAddDf_unsynced',
+            'Sampler.smSaveFull_error_keeps_mem']
+ANCHORS = ['samplesDefersCleanup', 'smLoadFull', 'smSaveFull', 'smAddDf']
 RULE = ("histories of 1-6 runs on one data file: sample_combos(n) and sow_samples(n) -> grow -> reap (with batch sizes), n in "
         "1..7, combos overrides (lists and callables), runner constants, 1-2 outputs, engines pickle/csv, shuffle on/off, a "
         "fresh Sampler object between runs, or two live Sampler objects on the one file taking turns; the draws are read off the returned rows and handed to the Lean model, which "
